@@ -52,11 +52,11 @@ Definition legal_timing (t : timing) : Prop :=
             (t_busy_c t k <= N.to_nat COMMAND_RETRIES)%nat /\
             (t_init t k <= N.to_nat COMMAND_RETRIES)%nat.
 
+(* What the card does when its output queue is empty *)
 Inductive phase :=
-| PIdle                                          (* nothing to send: MISO = FF              *)
-| PEmit (bytes : list N) (nxt : phase)           (* send these bytes, one per clock         *)
-| PNextBlock (blk : N)                           (* multiple-block read: block `blk` is next *)
-| PWaitTok (multi : bool) (blk : N)              (* write: waiting for a start token        *)
+| PIdle                                          (* waiting for a command: MISO = FF           *)
+| PNextBlock (blk : N)                           (* multiple-block read: block `blk` is next   *)
+| PWaitTok (multi : bool) (blk : N)              (* write: waiting for a start token           *)
 | PRecv (multi : bool) (blk : N) (got : list N) (nleft : nat).   (* write: receiving 512+2 bytes *)
 
 Record card := {
@@ -71,6 +71,7 @@ Record card := {
   c_reading : bool;          (* inside a multiple-block read *)
   c_tick : N;                (* index of the next timing draw *)
   c_fbuf : list N;           (* command frame bytes received so far *)
+  c_out : list N;            (* bytes queued for MISO, one per clock; FF when empty *)
   c_phase : phase
 }.
 
@@ -79,26 +80,26 @@ Definition nblocks (c : card) : N := spec_capacity_blocks (k_csd c).
 Definition upd_mem (m : N -> list N) (b : N) (d : list N) : N -> list N :=
   fun x => if x =? b then d else m x.
 
-Definition set_phase (c : card) (p : phase) : card :=
+Definition set_out (c : card) (out : list N) (p : phase) : card :=
   {| k_kind := k_kind c; k_csd := k_csd c; k_tim := k_tim c; c_mem := c_mem c; c_idle := c_idle c;
      c_crc := c_crc c; c_app := c_app c; c_init_left := c_init_left c; c_reading := c_reading c;
-     c_tick := c_tick c; c_fbuf := c_fbuf c; c_phase := p |}.
+     c_tick := c_tick c; c_fbuf := c_fbuf c; c_out := out; c_phase := p |}.
 Definition set_fbuf (c : card) (f : list N) : card :=
   {| k_kind := k_kind c; k_csd := k_csd c; k_tim := k_tim c; c_mem := c_mem c; c_idle := c_idle c;
      c_crc := c_crc c; c_app := c_app c; c_init_left := c_init_left c; c_reading := c_reading c;
-     c_tick := c_tick c; c_fbuf := f; c_phase := c_phase c |}.
+     c_tick := c_tick c; c_fbuf := f; c_out := c_out c; c_phase := c_phase c |}.
 Definition tick (c : card) : card :=
   {| k_kind := k_kind c; k_csd := k_csd c; k_tim := k_tim c; c_mem := c_mem c; c_idle := c_idle c;
      c_crc := c_crc c; c_app := c_app c; c_init_left := c_init_left c; c_reading := c_reading c;
-     c_tick := c_tick c + 1; c_fbuf := c_fbuf c; c_phase := c_phase c |}.
+     c_tick := c_tick c + 1; c_fbuf := c_fbuf c; c_out := c_out c; c_phase := c_phase c |}.
 Definition set_flags (c : card) (idle crc app : bool) (init_left : nat) (reading : bool) : card :=
   {| k_kind := k_kind c; k_csd := k_csd c; k_tim := k_tim c; c_mem := c_mem c; c_idle := idle;
      c_crc := crc; c_app := app; c_init_left := init_left; c_reading := reading;
-     c_tick := c_tick c; c_fbuf := c_fbuf c; c_phase := c_phase c |}.
+     c_tick := c_tick c; c_fbuf := c_fbuf c; c_out := c_out c; c_phase := c_phase c |}.
 Definition set_mem (c : card) (m : N -> list N) : card :=
   {| k_kind := k_kind c; k_csd := k_csd c; k_tim := k_tim c; c_mem := m; c_idle := c_idle c;
      c_crc := c_crc c; c_app := c_app c; c_init_left := c_init_left c; c_reading := c_reading c;
-     c_tick := c_tick c; c_fbuf := c_fbuf c; c_phase := c_phase c |}.
+     c_tick := c_tick c; c_fbuf := c_fbuf c; c_out := c_out c; c_phase := c_phase c |}.
 
 Definition FF (n : nat) : list N := repeat 255 n.
 Definition BUSY (n : nat) : list N := repeat 0 n.
@@ -124,66 +125,70 @@ Definition exec (c0 : card) (cmd arg : N) : card :=
   let was_app := c_app c0 in
   (* every command consumes the APP_CMD latch and one timing index *)
   let c := tick (set_flags c0 (c_idle c0) (c_crc c0) false (c_init_left c0) (c_reading c0)) in
-  let respond (c' : card) (resp : list N) (nxt : phase) : card :=
-      set_phase c' (PEmit (FF (t_ncr t k) ++ resp) nxt) in
-  let illegal := respond c [r1 c 4] PIdle in
+  (* the response replaces whatever was queued: N_CR fill bytes, the response, then `more` *)
+  let respond (c' : card) (resp more : list N) (nxt : phase) : card :=
+      set_out c' (FF (t_ncr t k) ++ resp ++ more) nxt in
+  let illegal := respond c [r1 c 4] [] PIdle in
   if cmd =? 0 then
     let c' := set_flags c true false false (t_init t k) false in
-    respond c' [1] PIdle
+    respond c' [1] [] PIdle
   else if c_reading c0 then
     (* only STOP_TRANSMISSION ends a multiple-block read *)
     if cmd =? 12 then
       let c' := set_flags c (c_idle c) (c_crc c) false (c_init_left c) false in
-      set_phase c' (PEmit (127 :: FF (t_ncr t k) ++ [r1 c' 0] ++ BUSY (t_busy_c t k)) PIdle)
+      set_out c' (127 :: FF (t_ncr t k) ++ [r1 c' 0] ++ BUSY (t_busy_c t k)) PIdle
     else c0
+  else if (cmd =? 12) && (match c_phase c0 with PWaitTok true _ => true | _ => false end) then
+    (* STOP_TRANSMISSION also aborts a multiple-block write (after a rejected block) *)
+    set_out c (FF (t_ncr t k) ++ [r1 c 0] ++ BUSY (t_busy_c t k)) PIdle
   else if cmd =? 8 then
     match k_kind c with
     | V1SC => illegal
-    | _ => respond c [r1 c 0; 0; 0; N.land (N.shiftr arg 8) 15; N.land arg 255] PIdle
+    | _ => respond c [r1 c 0; 0; 0; N.land (N.shiftr arg 8) 15; N.land arg 255] [] PIdle
     end
   else if cmd =? 55 then
-    respond (set_flags c (c_idle c) (c_crc c) true (c_init_left c) false) [r1 c 0] PIdle
+    respond (set_flags c (c_idle c) (c_crc c) true (c_init_left c) false) [r1 c 0] [] PIdle
   else if cmd =? 58 then
     let ocr0 := if c_idle c then 0 else
                 match k_kind c with V2HC => 192 | _ => 128 end in
-    respond c [r1 c 0; ocr0; 255; 128; 0] PIdle
+    respond c [r1 c 0; ocr0; 255; 128; 0] [] PIdle
   else if cmd =? 59 then
-    respond (set_flags c (c_idle c) (N.testbit arg 0) false (c_init_left c) false) [r1 c 0] PIdle
+    respond (set_flags c (c_idle c) (N.testbit arg 0) false (c_init_left c) false) [r1 c 0] [] PIdle
   else if cmd =? 13 then
-    respond c [r1 c 0; 0] PIdle
+    respond c [r1 c 0; 0] [] PIdle
   else if (cmd =? 41) && was_app then
     if c_idle c then
       let hcs_ok := match k_kind c with V2HC => N.testbit arg 30 | _ => true end in
       if hcs_ok then
         match c_init_left c with
-        | O => let c' := set_flags c false (c_crc c) false O false in respond c' [0] PIdle
-        | S n => respond (set_flags c true (c_crc c) false n false) [1] PIdle
+        | O => let c' := set_flags c false (c_crc c) false O false in respond c' [0] [] PIdle
+        | S n => respond (set_flags c true (c_crc c) false n false) [1] [] PIdle
         end
-      else respond c [1] PIdle
-    else respond c [0] PIdle
+      else respond c [1] [] PIdle
+    else respond c [0] [] PIdle
   else if c_idle c then illegal
-  else if (cmd =? 23) && was_app then respond c [0] PIdle
+  else if (cmd =? 23) && was_app then respond c [0] [] PIdle
   else if cmd =? 9 then
-    respond c [0] (PEmit (FF (t_nac t k) ++ data_packet (k_csd c)) PIdle)
+    respond c [0] (FF (t_nac t k) ++ data_packet (k_csd c)) PIdle
   else if cmd =? 17 then
     match decode_addr c arg with
-    | inl b => respond c [0] (PEmit (FF (t_nac t k) ++ data_packet (c_mem c b)) PIdle)
-    | inr e => respond c [e] PIdle
+    | inl b => respond c [0] (FF (t_nac t k) ++ data_packet (c_mem c b)) PIdle
+    | inr e => respond c [e] [] PIdle
     end
   else if cmd =? 18 then
     match decode_addr c arg with
-    | inl b => respond (set_flags c false (c_crc c) false (c_init_left c) true) [0] (PNextBlock b)
-    | inr e => respond c [e] PIdle
+    | inl b => respond (set_flags c false (c_crc c) false (c_init_left c) true) [0] [] (PNextBlock b)
+    | inr e => respond c [e] [] PIdle
     end
   else if cmd =? 24 then
     match decode_addr c arg with
-    | inl b => respond c [0] (PWaitTok false b)
-    | inr e => respond c [e] PIdle
+    | inl b => respond c [0] [] (PWaitTok false b)
+    | inr e => respond c [e] [] PIdle
     end
   else if cmd =? 25 then
     match decode_addr c arg with
-    | inl b => respond c [0] (PWaitTok true b)
-    | inr e => respond c [e] PIdle
+    | inl b => respond c [0] [] (PWaitTok true b)
+    | inr e => respond c [e] [] PIdle
     end
   else illegal.
 
@@ -195,34 +200,10 @@ Definition on_frame (c : card) (f : list N) : card :=
   let crcb := nth 5 f 0 in
   let c := set_fbuf c [] in
   if (c_crc c || (cmd =? 0) || (cmd =? 8)) && negb (crc7 (firstn 5 f) =? crcb)
-  then (* CRC error: not executed; the APP_CMD latch is consumed *)
-       set_phase (tick (set_flags c (c_idle c) (c_crc c) false (c_init_left c) (c_reading c)))
-                 (PEmit (FF (t_ncr (k_tim c) (c_tick c)) ++ [r1 c 8]) (if c_reading c then c_phase c else PIdle))
+  then (* CRC error: not executed; the APP_CMD latch is consumed; what was queued is dropped *)
+       set_out (tick (set_flags c (c_idle c) (c_crc c) false (c_init_left c) (c_reading c)))
+               (FF (t_ncr (k_tim c) (c_tick c)) ++ [r1 c 8]) (c_phase c)
   else exec c cmd arg.
-
-(* bring the phase into a form that has a byte to send (or is quiescent) *)
-Fixpoint settle_phase (fuel : nat) (c : card) : card :=
-  match fuel with
-  | O => c
-  | S f =>
-    match c_phase c with
-    | PEmit [] nxt => settle_phase f (set_phase c nxt)
-    | PNextBlock b =>
-        if b <? nblocks c
-        then set_phase (tick c) (PEmit (FF (t_nac (k_tim c) (c_tick c)) ++ data_packet (c_mem c b))
-                                       (PNextBlock (b + 1)))
-        else c
-    | _ => c
-    end
-  end.
-Definition settle (c : card) : card := settle_phase 4 c.
-
-(* what the card drives on MISO during this byte, and the phase after it *)
-Definition emit (c : card) : N * card :=
-  match c_phase c with
-  | PEmit (b :: rest) nxt => (b, set_phase c (PEmit rest nxt))
-  | _ => (255, c)
-  end.
 
 (* the command-frame receiver *)
 Definition feed_frame (c : card) (mosi : N) : card :=
@@ -239,33 +220,44 @@ Definition on_block (c : card) (multi : bool) (blk : N) (got : list N) : card :=
   let k := c_tick c in
   let c1 := tick c in
   if c_crc c && negb (crc16 d =? crc) then
-    set_phase c1 (PEmit [235] (if multi then PWaitTok true blk else PIdle))
+    set_out c1 [235] (if multi then PWaitTok true blk else PIdle)
   else if negb (blk <? nblocks c) then
-    set_phase c1 (PEmit [237] (if multi then PWaitTok true blk else PIdle))
+    set_out c1 [237] (if multi then PWaitTok true blk else PIdle)
   else
-    set_phase (set_mem c1 (upd_mem (c_mem c) blk d))
-              (PEmit (229 :: BUSY (t_busy_w (k_tim c) k)) (if multi then PWaitTok true (blk + 1) else PIdle)).
+    set_out (set_mem c1 (upd_mem (c_mem c) blk d))
+            (229 :: BUSY (t_busy_w (k_tim c) k)) (if multi then PWaitTok true (blk + 1) else PIdle).
 
 (* one byte on the bus: MOSI in, MISO out *)
-Definition card_byte (c0 : card) (mosi : N) : card * N :=
-  let c := settle c0 in
-  match c_phase c with
-  | PRecv multi blk got nleft =>
-      match nleft with
-      | S (S l) => (set_phase c (PRecv multi blk (got ++ [mosi]) (S l)), 255)
-      | _ => (on_block c multi blk (got ++ [mosi]), 255)
-      end
-  | PWaitTok multi blk =>
-      match c_fbuf c with
-      | [] =>
-          if (mosi =? 254) && negb multi then (set_phase c (PRecv false blk [] 514), 255)
-          else if (mosi =? 252) && multi then (set_phase c (PRecv true blk [] 514), 255)
-          else if (mosi =? 253) && multi
-               then (set_phase (tick c) (PEmit (BUSY (t_busy_c (k_tim c) (c_tick c))) PIdle), 255)
-          else (feed_frame c mosi, 255)
-      | _ => (feed_frame c mosi, 255)
-      end
-  | _ => let '(miso, c1) := emit c in (feed_frame c1 mosi, miso)
+Definition card_byte (c : card) (mosi : N) : card * N :=
+  match c_out c with
+  | b :: rest => (feed_frame (set_out c rest (c_phase c)) mosi, b)
+  | [] =>
+    match c_phase c with
+    | PIdle => (feed_frame c mosi, 255)
+    | PNextBlock b =>
+        if b <? nblocks c then
+          (* fetch the next block: N_AC fill bytes (the first goes out now), then the packet *)
+          match FF (t_nac (k_tim c) (c_tick c)) ++ data_packet (c_mem c b) with
+          | m :: rest => (feed_frame (set_out (tick c) rest (PNextBlock (b + 1))) mosi, m)
+          | [] => (feed_frame c mosi, 255)
+          end
+        else (feed_frame c mosi, 255)
+    | PWaitTok multi blk =>
+        match c_fbuf c with
+        | [] =>
+            if (mosi =? 254) && negb multi then (set_out c [] (PRecv false blk [] 514), 255)
+            else if (mosi =? 252) && multi then (set_out c [] (PRecv true blk [] 514), 255)
+            else if (mosi =? 253) && multi
+                 then (set_out (tick c) (BUSY (t_busy_c (k_tim c) (c_tick c))) PIdle, 255)
+            else (feed_frame c mosi, 255)
+        | _ => (feed_frame c mosi, 255)
+        end
+    | PRecv multi blk got nleft =>
+        match nleft with
+        | S (S l) => (set_out c [] (PRecv multi blk (got ++ [mosi]) (S l)), 255)
+        | _ => (on_block c multi blk (got ++ [mosi]), 255)
+        end
+    end
   end.
 
 Fixpoint card_bytes (c : card) (out : list N) : card * list N :=
@@ -287,7 +279,7 @@ Definition card_spi (c : card) (call : spi_call) : card * spi_reply :=
 (* a card as it is after power-up *)
 Definition power_on (kd : kind) (csd : list N) (t : timing) (m : N -> list N) : card :=
   {| k_kind := kd; k_csd := csd; k_tim := t; c_mem := m; c_idle := true; c_crc := false; c_app := false;
-     c_init_left := O; c_reading := false; c_tick := 0; c_fbuf := []; c_phase := PIdle |}.
+     c_init_left := O; c_reading := false; c_tick := 0; c_fbuf := []; c_out := []; c_phase := PIdle |}.
 
 (* the register layout belongs to the kind: standard capacity cards (v1 and v2)
    carry a version-1 CSD, high capacity cards a version-2 CSD *)
@@ -370,7 +362,8 @@ Definition h_frame (h : hstate) (ctx : hmode) (f : list N) : hstate + N :=
   else if in_multi_read ctx then
     if cmd =? 12 then inl (hset_all h (HStuff cmd arg) (h_stage h) (h_crc h) false) else inr 7
   else match ctx with
-       | HWTok true => inr 10
+       | HWTok true =>
+         if cmd =? 12 then inl (hset_all h (HStuff cmd arg) (h_stage h) (h_crc h) false) else inr 10
        | _ =>
          if cmd =? 12 then inr 6
          else if negb (cmd =? 0) && negb (h_last h =? 255) then inr 3
